@@ -312,7 +312,7 @@ func genHistory(r *Rng, n int, maxLine int) []opT {
 // ---------------------------------------------------------------- driver
 
 func runC15(c *Ctx) {
-	c.Res.Rule = "a case is (ConditionalLevel, TriggerLevel, destination kind LevelWriter|io.Writer, history of WriteLevel(level, line)/Trigger/Close); observed = per operation the destination calls made during it (level, bytes) and its result. Bounded-exhaustive: every history of <=4 operations over {W at 7 levels, Trigger, Close} for all 49 threshold pairs from {-128,-1,0,3,9,11,127} is run and monitored (the model evaluates all histories of <=2 operations, a fixed 1/4 of those of 3 and 1/32 of those of 4; thorough: all, and length 5 for 4 pairs); then seeded random histories (<=40 operations, thorough <=80, random int8 levels != 10, random line bytes without interior newline, long lines, both destination kinds), a directed long-line sweep (lines of 2^8, 2^15, 2^16, 2^17 -4..+2, 70000, 100000, 3*2^16, 2^18, 2^20 (+1) bytes and the buffer reuse limit -2..+1, each held first / in the middle / last, as the triggering line, passing through while others are held, after the trigger and before a Close; total held bytes at the reuse limit -3..+3 followed by a writer that draws the pooled buffer; random histories mixing long and short lines; monitored, the model evaluates those with lines <= 4100 bytes), several writers alive at once sharing the buffer pool, a malformed stream for the correspondence only (level 10, interior newline, unterminated line, failing destination), and concurrent runs. non-trivial = something was held and later released or discarded, and something passed through; distinct by case text"
+	c.Res.Rule = "a case is (ConditionalLevel, TriggerLevel, destination kind LevelWriter|io.Writer, history of WriteLevel(level, line)/Trigger/Close); observed = per operation the destination calls made during it (level, bytes) and its result. Bounded-exhaustive: every history of <=4 operations over {W at 7 levels, Trigger, Close} for all 49 threshold pairs from {-128,-1,0,3,9,11,127} is run and monitored (the model evaluates all histories of <=2 operations, a fixed 1/4 of those of 3 and 1/32 of those of 4; thorough: all, and length 5 for 4 pairs); then seeded random histories (<=40 operations, thorough <=80, random int8 levels != 10, random line bytes without interior newline, long lines, both destination kinds), a directed long-line sweep (lines of 2^8, 2^15, 2^16, 2^17 -4..+2, 70000, 100000, 3*2^16, 2^18, 2^20 (+1) bytes and the buffer reuse limit -2..+1, each held first / in the middle / last, as the triggering line, passing through while others are held, after the trigger and before a Close; total held bytes at the reuse limit -3..+3 followed by a writer that draws the pooled buffer; random histories mixing long and short lines; monitored, the model evaluates those with <= 1500 line bytes in all), several writers alive at once sharing the buffer pool, a malformed stream for the correspondence only (level 10, interior newline, unterminated line, failing destination), and concurrent runs. non-trivial = something was held and later released or discarded, and something passed through; distinct by case text"
 	c.OpenShards("From Verif Require Import Base.Prelude Misc.Level Lts.Trigger Harness.C15H.\nOpen Scope Z_scope.",
 		"(tcfg * script * list op) * list (list dcall * mret)", "mismatches c15_run c15_eqb", 1000)
 
